@@ -238,6 +238,8 @@ def main():
     for sid in sorted(os.listdir(ROOT)):
         if os.path.isdir(os.path.join(ROOT, sid)) and sid not in seeds and re.match(r'c\d+[a-z]$', sid):
             seeds[sid] = from_notes(sid)
+    if 'c09q' in seeds:
+        seeds['c09q'] = dict(seeds['c09q'], note='patch.diff is the change ported by hand onto the lines as rewritten by fix fab10e6 (hidden variables labelled in variable-id order); the agent\'s original is patch.orig.diff. With the fix the change is no longer order-dependent (C09 silent) but still loses answers whenever the first-labelled hidden variable has a locally consistent, globally wrong first value: reported by C17 (missing-solution). Re-confirmed with tools/reconfirm_seed.sh against fab10e6.')
     for sid, s in sorted(seeds.items()):
         d = os.path.join(ROOT, sid)
         if not os.path.isdir(d):
